@@ -160,4 +160,24 @@ mutual
     | (_, x) :: r => okW x ∧ okKvs r
 end
 
+/-! ### `pretty`: trees without alignment tables -/
+
+def isArr : JV → Bool | .arr _ => true | _ => false
+def isObj : JV → Bool | .obj _ => true | _ => false
+
+mutual
+  /-- no array of the tree is a table for `pretty`'s alignment: none has two or more members that are
+  all arrays or all objects -/
+  def noTable : JV → Prop
+    | .arr xs => (xs.length < 2 ∨ ¬ (xs.all isArr = true ∨ xs.all isObj = true)) ∧ noTableList xs
+    | .obj kvs => noTableKvs kvs
+    | _ => True
+  def noTableList : List JV → Prop
+    | [] => True
+    | x :: r => noTable x ∧ noTableList r
+  def noTableKvs : Kvs → Prop
+    | [] => True
+    | (_, x) :: r => noTable x ∧ noTableKvs r
+end
+
 end OjgVerif.Writer
